@@ -284,9 +284,13 @@ def conn_ids(run):
         for w in WAYS[:6]:
             m = mk([REPS['u']], w, conn=c)
             inf.present(m)
-            cid, _ = extract.sent_message() if m['sent'] else extract.received_message()
-            ids.setdefault(c, set()).add(cid)
             res.evaluations += 1
+            try:
+                cid, _ = extract.sent_message() if m['sent'] else extract.received_message()
+            except Exception:
+                res.violations.append(sut.exc_violation({'connection_ids': True}, 'closure.exception', {'connection': c, 'way': list(w)}))
+                continue
+            ids.setdefault(c, set()).add(cid)
     ok = all(len(v) == 1 for v in ids.values()) and len({next(iter(v)) for v in ids.values()}) == 3
     if not ok:
         res.violations.append(Violation('closure.connection_id', {'connection_ids': True}, {'ids': {k: sorted(v) for k, v in ids.items()}}))
@@ -356,11 +360,11 @@ def run(run, tier, seed):
     res = explore.prod(lambda: gen_cases(tier), evaluate, seed=seed,
                        bound={'signature_length': 2 if tier == 'quick' else 3, 'positions': 20, 'array_follower_table': 'len 0..4 x i<j<6 x 9 kinds'})
     run.add_part('closures', res)
-    conn_ids(run)
-    scenario_part(run)
+    run.parts_in_child(conn_ids)
+    run.parts_in_child(scenario_part)
     if tier == 'thorough':
         from .. import gdbreplay
-        gdbreplay.replay_part(run, 'C09')
+        run.parts_in_child(lambda r: gdbreplay.replay_part(r, 'C09'))
     run.rule = ('closures for all signatures to the bound x one value per kind, alternative values, per-kind value lattices, '
                 'every kind at every position to 20, the array x follower table, ?/version placements, x client/server x '
                 'invoke/dispatch/send/queue; non-trivial = at least two argument kinds')
